@@ -179,6 +179,10 @@ async fn run(
 
                 if gaps_count == 0 {
                     info!(%actor_id, %version, "found fully buffered, unapplied, changes! scheduling apply");
+                    #[cfg(feature = "verif-hooks")]
+                    klukai_types::verif::event("run.apply_scheduled", || {
+                        format!("{} {actor_id} {version}", agent.actor_id())
+                    });
                     let tx_apply = agent.tx_apply().clone();
                     let version = *version;
                     tokio::spawn(async move {
